@@ -115,6 +115,21 @@ _extra = {
  "C19": "Also: ArchiveInfoList.String, evaluated for three archives, writes e0 , e1 , e2.",
  "C20": "Also decided (decision diagrams and polynomial normal form): slot i of N is at until.Truncate(step) - (N-1-i)*step; randomValWithHighSum adds exactly the finer values truncating to t, stops only past t and adds N*Intn(highRndMax+1) only for slots older than the first finer point; randomPoints takes the covered start from the finer points iff they exist and start before until; randomPointsList chains archive k-1 into archive k with bound max*step/step_0; every flag.Value.Set stores what it parsed.",
 }
+_borrow = {
+ "C01": "Also evaluates C03.R1/R4 (a point routed to the wrong archive is not the last value of its slot) and that the writer stores exactly the aligned point it was given (putPointAt encodes its parameter).",
+ "C04": "Also evaluates C01.R1 and C06.R6 (the fetch bounds are aligned by interval(), so the floored-modulo and slot-placement rules are this property's as well).",
+ "C07": "Also: the first read of readHeader stays within the smallest valid file, so every accepted layout can be reopened.",
+ "C08": "Also evaluates C02.R3/R6 (copy writes through the propagating batch writer), that every glob name is filepath.Rel(baseDir, match), and that archives are written finest first with their own lists.",
+ "C09": "Also: every glob name is filepath.Rel(baseDir, match) and the glob is expanded on (SrcBase, SrcRelPath).",
+ "C10": "Also evaluates C17.R4 (remote sum goes through a handler that must keep no state across requests).",
+ "C11": "Also evaluates C10.R2/R4, C17.R3 and C02.R3/R6 (sum-copy stores what sum computes through the propagating writer).",
+ "C12": "Also evaluates C17.R4 (handlers keep no state across requests) and C19.R2 (the server parses every timestamp the client prints).",
+ "C14": "Also: the decoder's value count is exactly Sub(until, from)/step; the first read of readHeader stays within the smallest valid file.",
+ "C15": "Also evaluates C07.R4 (sizes from untrusted counts are bounded in wide arithmetic by the layout validation).",
+}
+for _k, _v in _borrow.items():
+    _extra[_k] = (_extra.get(_k, "") + " " + _v).strip()
+_re = "Every property also evaluates <id>.RE: no failure is turned into success in the functions reachable from its entry points."
 for _k, _v in _extra.items():
     _t = claimed[_k]
     claimed[_k] = (_t[0], _t[1] + " " + _v, _t[2], _t[3])
